@@ -6,7 +6,7 @@ CONSTANTS
   Edges <- TEdges
   Couplings <- TCouplings
   Requires <- TRequires
-  Resolver = "2"
+  Resolver = "1"
 SPECIFICATION MCSpec
 INVARIANTS TypeOK Sound Complete ProcMacroOnHost FeaturesOnUnits LinksClosed NoHostLeak
   SplitBreaksCoupling SplitBreaksPair WeakDoesNotActivate NonWeakActivates DirectIsCoherent
